@@ -757,11 +757,16 @@ static size_t runScript(const Script &sc0, bool stock = false, bool twoConn = fa
         corr(opLine, o.str());
         stat("ops");
         for (auto &el : elems) stat("op_" + el[0].toStdString());
-        // one element can not both end the stream and bind / route: the server went on with the rest of the read
+        // a connection is bound AFTER it was reported disconnected (under another jid: not the conflict hand-over):
+        // the server went on with the rest of the read after it had closed the stream
         if (srvOpenBefore && !f.serverSideOpen(k) && elems.size() > 1) {
             bool bound = false;
-            for (auto &e : o.sig) if (e.startsWith("conn(")) bound = true;
-            if (bound || !o.routed.isEmpty()) {
+            QString gone;
+            for (auto &e : o.sig) {
+                if (e.startsWith("disc(") && gone.isNull()) gone = e.mid(5, e.size() - 6);
+                if (e.startsWith("conn(") && !gone.isNull() && e.mid(5, e.size() - 6) != gone) bound = true;
+            }
+            if (bound) {
                 orc[1].batchAfterClose = orc[2].batchAfterClose = true;
                 stat("processed_after_disconnect");
                 fail("C16:processing-after-disconnect", joinScript(sc, i));
